@@ -167,8 +167,12 @@ def one(rec, t, ti, name, obj, mode):
     # every fourth value passes enum-typed fields as plain integers (the serializer converts with int() and
     # compares the switch field with ==, so an equal integer must select the same case)
     br.enum_as_int = (rec.evals % 4 == 3)
+    # array parameters are documented as Iterable: lists, tuples, one-shot generators, a bytearray and a read-only
+    # Sequence view take turns
+    form = (rec.evals // 4) % 5
+    rec.seen("array-argument-forms", form)
     try:
-        real = br.build(obj)
+        real = br.build(obj, array_form=form)
     except Exception as e:
         br.enum_as_int = False
         if isinstance(pred, Unsupported):
